@@ -370,3 +370,29 @@ def judge_mask_sampled(obs, region, mode, subpixels, mask, max_points=4_000_000)
         obs.ok(max(0, judged - 1), 'mask-pixels')
     else:
         obs.ok(judged, 'mask-pixels')
+    # ... and against the region's OWN membership function at the sample centres (the statement's wording): where every sample of a
+    # pixel is decided (outside the band), value x n^2 is the number of sample centres for which contains() says True
+    if nx * ny * n * n <= 60000 and _all_included(region):
+        k = (np.arange(n) + 0.5) / n
+        xs = (np.arange(bbox.ixmin, bbox.ixmax)[:, None] - 0.5 + k[None, :]).ravel()
+        ys = (np.arange(bbox.iymin, bbox.iymax)[:, None] - 0.5 + k[None, :]).ravel()
+        X, Y = np.meshgrid(xs, ys)
+        own = np.asarray(region.contains(_r.PixCoord(X, Y)))
+        if own.shape == X.shape:
+            c_in = own.reshape(ny, n, nx, n).sum(axis=(1, 3))
+            badc = (n_amb == 0) & (kr != c_in)
+            if badc.any():
+                j, i = np.argwhere(badc)[0]
+                obs.violation('mask-differs-from-own-contains:' + cname,
+                              f'{cname} {mode} n={n}: pixel ({bbox.ixmin + i}, {bbox.iymin + j}) has value {data[j, i]!r} (= {kr[j, i]:.0f}/{n * n}) but the '
+                              f'region\'s contains() is True at {int(c_in[j, i])} of its sample centres; {int(badc.sum())} pixels differ', region=repr(region)[:400])
+            else:
+                obs.ok(int((n_amb == 0).sum()), 'mask-vs-own-contains')
+
+
+def _all_included(region):
+    if not bool(dict.get(region.meta, 'include', True)):
+        return False
+    if type(region).__name__ == 'CompoundPixelRegion':
+        return _all_included(region.region1) and _all_included(region.region2)
+    return True
